@@ -66,6 +66,12 @@ PROPS = {
         "hypotheses": [],
         "not_decided": ["byte-for-byte equality with an independent reference implementation on concrete inputs (execution of the curve arithmetic, not deduction)"],
     },
+    "C05": {
+        "units": [gen("C05"),
+                  {"name": "IMPL", "backend": "verus", "props": ["C05_impl.rs"], "tags": ["C05"], "specs": "contracts_impl", "prelude": "impl", "gen_props": "const_distinct"}],
+        "trusted_base": TB_ALGEBRA,
+        "hypotheses": [X_NONID, "X-DSEP (explicit): hashing under two distinct tags gives two distinct points"],
+    },
 }
 
 NOT_APPLICABLE = {
